@@ -16,6 +16,23 @@ static std::string do_enc(bool b64, const std::string &in) {
     });
 }
 
+// caller-buffer decoder with a capacity the caller only *claims* (SIZE_MAX, 2^63 ...: "it is big enough"): the real block has
+// room for every correct decoding of the text plus slack and a canary behind; writes beyond it are ASan's to report
+static std::string do_dec_claimed(bool b64, const std::string &in, size_t claimed) {
+    ST::string s = raw_string(in);
+    size_t real = in.size() + 16;
+    unsigned char *buf = new unsigned char[real];
+    memset(buf, 0xA5, real);
+    ST_ssize_t r = b64 ? ST::base64_decode(s, buf, claimed) : ST::hex_decode(s, buf, claimed);
+    std::string out = "ret=" + std::to_string((long)r) + " out=";
+    if (r > (ST_ssize_t)real) out += "!ret>block";
+    else out += hex_units(buf, r > 0 ? (size_t)r : 0);
+    // (a rejected text may have been partly decoded into the buffer before the bad character was met: within bounds, allowed)
+    if (r >= 0) { for (size_t i = (size_t)r; i < real; ++i) if (buf[i] != 0xA5) { out += " !wrote-beyond-ret"; break; } }
+    delete[] buf;
+    return out;
+}
+
 // caller-buffer decoder; cap < 0 means null output
 static std::string do_dec_into(bool b64, const std::string &in, long cap) {
     ST::string s = raw_string(in);
@@ -73,7 +90,15 @@ static std::string exec_case(const Args &a) {
     const std::string &op = a.op;
     if (op == "hexenc") return do_enc(false, parse_bytes(a.get("in")));
     if (op == "b64enc") return do_enc(true, parse_bytes(a.get("in")));
+    if (op == "hexencN" || op == "b64encN") {   // null data pointer: empty for size 0, std::invalid_argument otherwise (documented)
+        size_t n = (size_t)a.num("size");
+        return guarded([&]() -> std::string {
+            ST::string r = op == "b64encN" ? ST::base64_encode(nullptr, n) : ST::hex_encode(nullptr, n);
+            return "ok " + hex_bytes(str_bytes(r));
+        });
+    }
     if (op == "hexdec" || op == "b64dec") {
+        if (a.get("cap") != "null" && a.num("cap") > ((uint64_t)1 << 40)) return do_dec_claimed(op == "b64dec", parse_bytes(a.get("in")), (size_t)a.num("cap"));
         long cap = a.get("cap") == "null" ? -1 : (long)a.num("cap");
         return do_dec_into(op == "b64dec", parse_bytes(a.get("in")), cap);
     }
@@ -146,6 +171,8 @@ static void gen(Emitter &em, const Options &opt) {
             em.emit(std::string("blk.enc codec=") + codec + " kind=g2 lo=" + std::to_string(lo) + " n=4096");
         if (in_slice(blk++)) em.emit(std::string("blk.enc codec=") + codec + " kind=g1 lo=0 n=256");
     }
+    // ---- the encoders' null data pointer (size 0: empty text; otherwise the documented std::invalid_argument)
+    for (const char *op : {"hexencN", "b64encN"}) for (int n : {0, 1, 2, 3, 4, 17}) if (in_slice(blk++)) em.emit(std::string(op) + " size=" + std::to_string(n));
     // ---- C14: every length 0..70 with random content, individually (result crosses the SSO limit)
     int reps = thorough ? 40 : 6;
     for (int rep = 0; rep < reps; ++rep)
@@ -215,6 +242,15 @@ static void gen(Emitter &em, const Options &opt) {
         for (long cap : {need, need - 1, need + 1, 0L, need + 1000})
             if (cap >= 0) em.emit(std::string(nm) + "dec in=" + hex_bytes(txt) + " cap=" + std::to_string(cap));
         em.emit(std::string(nm) + "dec in=" + hex_bytes(txt) + " cap=null");
+        // a claimed capacity at the edge of size_t (the size comparison must not be folded with the sign test)
+        if (k % 4 == 0) for (const char *cap : {"18446744073709551615", "18446744073709551614", "9223372036854775808", "9223372036854775807"})
+            em.emit(std::string(nm) + "dec in=" + hex_bytes(txt) + " cap=" + cap);
+    }
+    // texts of every length 0..9 (valid alphabet, every length class modulo 4 / 2) against the claimed capacities
+    for (int len = 0; len <= 9; ++len) for (const char *nm : {"b64", "hex"}) for (const char *cap : {"18446744073709551615", "18446744073709551614", "9223372036854775808"}) {
+        if (!in_slice(blk++)) continue;
+        std::string txt = std::string(nm) == "b64" ? std::string("QUJDREVGR0g").substr(0, len) : std::string("4a4B6c7D8e").substr(0, len);
+        em.emit(std::string(nm) + "dec in=" + hex_bytes(txt) + " cap=" + cap);
     }
 }
 
